@@ -357,4 +357,326 @@ theorem onContinue_spec (w : World) (frame : Frame) (lim : Limits) (frag : Optio
             cases hfin : frame.header.fin <;>
               simp only [Bool.false_eq_true, if_false, if_true] <;> exact ⟨_, rfl, rfl⟩
 
+theorem frameMeaning_data (lim : Limits) (frag : Option Partial) (fin : Bool) (o : Nat) (p : Bytes)
+    (ho : o = 1 ∨ o = 2) :
+    frameMeaning lim frag fin o p =
+      match frag with
+      | some _ => .fail .protocol
+      | none =>
+        if overLimit p.length lim.maxMsg then .fail .capacity
+        else if o = 1 then
+          if fin then (if wellFormedB p then .deliver (.text p) none else .fail .utf8)
+          else (if viablePrefixB p then .continue_ (some ⟨true, p⟩) else .fail .utf8)
+        else
+          if fin then .deliver (.binary p) none else .continue_ (some ⟨false, p⟩) := by
+  unfold frameMeaning
+  have h8 : ¬ o ≥ 8 := by omega
+  have h0 : ¬ o = 0 := by omega
+  rw [if_neg h8, if_neg h0]
+  rfl
+
+theorem startFragmented_over (w : World) (frame : Frame) (ty : Incomplete) (hl : ty.len = 0)
+    (h : frame.payload.length > w.c.cfg.maxMsg.getD usizeMax) :
+    ∃ e, w.startFragmented frame ty = (w, .err e) ∧ errClassOf e = some .capacity := by
+  unfold World.startFragmented
+  obtain ⟨e, he, hc⟩ := incomplete_extend_over (m := ty) (tail := frame.payload)
+    (cm := w.c.cfg.maxMsg) (Or.inr (by rw [hl]; exact h))
+  rw [he]
+  exact ⟨e, rfl, hc⟩
+
+theorem startFragmented_under (w : World) (frame : Frame) (ty : Incomplete) (hl : ty.len = 0)
+    (h : ¬ frame.payload.length > w.c.cfg.maxMsg.getD usizeMax) :
+    w.startFragmented frame ty =
+      match extendOk ty frame.payload with
+      | (_, .err e) => (w, .err e)
+      | (_, .panic s) => (w, .panic s)
+      | (msg, .ok ()) => (w.setIncomplete (some msg), .ok none) := by
+  unfold World.startFragmented
+  rw [incomplete_extend_under (m := ty) (tail := frame.payload) (cm := w.c.cfg.maxMsg)
+    (by rw [hl]; omega)]
+  rfl
+
+theorem onText_spec (w : World) (frame : Frame) (lim : Limits) (frag : Option Partial) (K : Nat)
+    (hst : w.c.state = .active) (hfr : FragRel w.c.incomplete frag)
+    (hlim : LimOK lim.maxMsg w.c.cfg.maxMsg K) (hK : accLen frag + frame.payload.length ≤ K)
+    (hlen : frame.payload.length < 2 ^ 64) :
+    StepRel w (w.onData frame .text) (frameMeaning lim frag frame.header.fin 1 frame.payload) := by
+  rw [frameMeaning_data _ _ _ _ _ (Or.inl rfl)]
+  unfold World.onData
+  cases hi : w.c.incomplete with
+  | some msg =>
+    rw [hi] at hfr
+    cases frag with
+    | none => cases msg <;> exact hfr.elim
+    | some f => exact ⟨_, rfl, rfl⟩
+  | none =>
+    rw [hi] at hfr
+    cases frag with
+    | some f => exact hfr.elim
+    | none =>
+      simp only [Option.isSome_none, Bool.false_eq_true, if_false, if_true]
+      cases hfin : frame.header.fin with
+      | true =>
+        simp only [if_true]
+        rw [hlim.single hlen]
+        cases hcm : checkMaxSize frame.payload.length w.c.cfg.maxMsg with
+        | false =>
+          simp only [Bool.not_false, if_true]
+          exact ⟨_, rfl, rfl⟩
+        | true =>
+          simp only [Bool.not_true, Bool.false_eq_true, if_false, Frame.intoText,
+            isUtf8_eq_wellFormedB]
+          cases hw : wellFormedB frame.payload with
+          | true =>
+            simp only [if_true]
+            exact ⟨rfl, MsgSame.refl _, hst, by rw [hi]; trivial⟩
+          | false =>
+            simp only [Bool.false_eq_true, if_false]
+            exact ⟨_, rfl, rfl⟩
+      | false =>
+        simp only [Bool.false_eq_true, if_false]
+        have hov := hlim.extend 0 frame.payload.length (by simpa [accLen] using hK)
+        rw [Nat.zero_add] at hov
+        rw [hov]
+        by_cases hc : frame.payload.length > w.c.cfg.maxMsg.getD usizeMax
+        · obtain ⟨e, he, hce⟩ := startFragmented_over w frame (.text {}) rfl hc
+          have hd : 0 > w.c.cfg.maxMsg.getD usizeMax ∨
+              frame.payload.length > w.c.cfg.maxMsg.getD usizeMax - 0 := Or.inr (by omega)
+          rw [he, decide_eq_true hd]
+          exact ⟨e, rfl, hce⟩
+        · have hd : ¬ (0 > w.c.cfg.maxMsg.getD usizeMax ∨
+              frame.payload.length > w.c.cfg.maxMsg.getD usizeMax - 0) := by omega
+          rw [startFragmented_under w frame (.text {}) rfl hc, decide_eq_false hd]
+          simp only [Bool.false_eq_true, if_false, extendOk]
+          rcases collector_extend_cases Collector.inv_init frame.payload with
+            ⟨hr, hinv⟩ | ⟨hr, hnv, _⟩
+          · rw [List.nil_append] at hinv
+            rw [hr, viable_of_inv hinv]
+            exact ⟨rfl, ⟨rfl, rfl, rfl, rfl, fun h => h⟩, hst, ⟨rfl, hinv⟩⟩
+          · rw [List.nil_append] at hnv
+            rw [hr, hnv]
+            exact ⟨_, rfl, rfl⟩
+
+theorem onBinary_spec (w : World) (frame : Frame) (lim : Limits) (frag : Option Partial) (K : Nat)
+    (hst : w.c.state = .active) (hfr : FragRel w.c.incomplete frag)
+    (hlim : LimOK lim.maxMsg w.c.cfg.maxMsg K) (hK : accLen frag + frame.payload.length ≤ K)
+    (hlen : frame.payload.length < 2 ^ 64) :
+    StepRel w (w.onData frame .binary) (frameMeaning lim frag frame.header.fin 2 frame.payload) := by
+  rw [frameMeaning_data _ _ _ _ _ (Or.inr rfl)]
+  unfold World.onData
+  cases hi : w.c.incomplete with
+  | some msg =>
+    rw [hi] at hfr
+    cases frag with
+    | none => cases msg <;> exact hfr.elim
+    | some f => exact ⟨_, rfl, rfl⟩
+  | none =>
+    rw [hi] at hfr
+    cases frag with
+    | some f => exact hfr.elim
+    | none =>
+      simp only [Option.isSome_none, Bool.false_eq_true, if_false]
+      rw [if_neg (show ¬ (2 : Nat) = 1 by decide)]
+      cases hfin : frame.header.fin with
+      | true =>
+        simp only [if_true]
+        rw [hlim.single hlen]
+        cases hcm : checkMaxSize frame.payload.length w.c.cfg.maxMsg with
+        | false =>
+          simp only [Bool.not_false, if_true]
+          exact ⟨_, rfl, rfl⟩
+        | true =>
+          simp only [Bool.not_true, Bool.false_eq_true, if_false]
+          exact ⟨rfl, MsgSame.refl _, hst, by rw [hi]; trivial⟩
+      | false =>
+        simp only [Bool.false_eq_true, if_false]
+        have hov := hlim.extend 0 frame.payload.length (by simpa [accLen] using hK)
+        rw [Nat.zero_add] at hov
+        rw [hov]
+        by_cases hc : frame.payload.length > w.c.cfg.maxMsg.getD usizeMax
+        · obtain ⟨e, he, hce⟩ := startFragmented_over w frame (.binary []) rfl hc
+          have hd : 0 > w.c.cfg.maxMsg.getD usizeMax ∨
+              frame.payload.length > w.c.cfg.maxMsg.getD usizeMax - 0 := Or.inr (by omega)
+          rw [he, decide_eq_true hd]
+          exact ⟨e, rfl, hce⟩
+        · have hd : ¬ (0 > w.c.cfg.maxMsg.getD usizeMax ∨
+              frame.payload.length > w.c.cfg.maxMsg.getD usizeMax - 0) := by omega
+          rw [startFragmented_under w frame (.binary []) rfl hc, decide_eq_false hd]
+          simp only [Bool.false_eq_true, if_false, extendOk, List.nil_append]
+          exact ⟨rfl, ⟨rfl, rfl, rfl, rfl, fun h => h⟩, hst, ⟨rfl, rfl⟩⟩
+
+/-! ## all frames -/
+
+theorem onFrame_spec (w : World) (frame : Frame) (lim : Limits) (frag : Option Partial) (K : Nat)
+    (hst : w.c.state = .active)
+    (hrsv : (frame.header.rsv1 || frame.header.rsv2 || frame.header.rsv3) = false)
+    (hmask : w.c.role = .client → frame.header.mask = none)
+    (hop : isReservedOpcode frame.header.opcode = false)
+    (hfr : FragRel w.c.incomplete frag)
+    (hlim : LimOK lim.maxMsg w.c.cfg.maxMsg K) (hK : accLen frag + frame.payload.length ≤ K)
+    (hlen : frame.payload.length < 2 ^ 64) :
+    StepRel w (w.onFrame frame)
+      (frameMeaning lim frag frame.header.fin (opCodeToU8 frame.header.opcode) frame.payload) := by
+  unfold World.onFrame
+  rw [hst]
+  simp only [WsState.canRead, Bool.not_true, Bool.false_eq_true, if_false]
+  have h1 : ¬ (frame.header.rsv1 = true ∨ frame.header.rsv2 = true ∨ frame.header.rsv3 = true) := by
+    intro h
+    simp only [Bool.or_eq_false_iff] at hrsv
+    rcases h with h | h | h
+    · rw [hrsv.1.1] at h; cases h
+    · rw [hrsv.1.2] at h; cases h
+    · rw [hrsv.2] at h; cases h
+  rw [if_neg h1]
+  have h2 : ¬ (w.c.role = .client ∧ frame.header.mask.isSome = true) := by
+    intro ⟨hr, hm⟩
+    rw [hmask hr] at hm; cases hm
+  rw [if_neg h2]
+  cases hopc : frame.header.opcode with
+  | control ctl =>
+    dsimp only
+    cases ctl with
+    | reserved i => rw [hopc] at hop; cases hop
+    | close =>
+      rw [show opCodeToU8 (OpCode.control OpCtl.close) = 8 from rfl,
+        frameMeaning_ctl _ _ _ _ _ (by decide)]
+      cases hfin : frame.header.fin with
+      | false => exact onControl_fail1 w frame _ hfin
+      | true =>
+        simp only [Bool.not_true, Bool.false_eq_true, if_false]
+        by_cases hl : frame.payload.length > 125
+        · rw [if_pos hl]; exact onControl_fail2 w frame _ hfin hl
+        · rw [if_neg hl]
+          rw [if_pos trivial]
+          exact onClose_spec w frame hst hfin hl
+    | ping =>
+      rw [show opCodeToU8 (OpCode.control OpCtl.ping) = 9 from rfl,
+        frameMeaning_ctl _ _ _ _ _ (by decide)]
+      cases hfin : frame.header.fin with
+      | false => exact onControl_fail1 w frame _ hfin
+      | true =>
+        simp only [Bool.not_true, Bool.false_eq_true, if_false]
+        by_cases hl : frame.payload.length > 125
+        · rw [if_pos hl]; exact onControl_fail2 w frame _ hfin hl
+        · rw [if_neg hl]
+          rw [if_neg (show ¬ (9 : Nat) = 8 by decide), if_pos trivial]
+          exact onPing_spec w frame frag hst hfin hl hfr
+    | pong =>
+      rw [show opCodeToU8 (OpCode.control OpCtl.pong) = 10 from rfl,
+        frameMeaning_ctl _ _ _ _ _ (by decide)]
+      cases hfin : frame.header.fin with
+      | false => exact onControl_fail1 w frame _ hfin
+      | true =>
+        simp only [Bool.not_true, Bool.false_eq_true, if_false]
+        by_cases hl : frame.payload.length > 125
+        · rw [if_pos hl]; exact onControl_fail2 w frame _ hfin hl
+        · rw [if_neg hl]
+          rw [if_neg (show ¬ (10 : Nat) = 8 by decide), if_neg (show ¬ (10 : Nat) = 9 by decide)]
+          exact onPong_spec w frame frag hst hfin hl hfr
+  | data d =>
+    dsimp only
+    cases d with
+    | reserved i => rw [hopc] at hop; cases hop
+    | «continue» => exact onContinue_spec w frame lim frag K hst hfr hlim hK
+    | text => exact onText_spec w frame lim frag K hst hfr hlim hK hlen
+    | binary => exact onBinary_spec w frame lim frag K hst hfr hlim hK hlen
+
+/-! ## the accumulator never holds more than the payload bytes seen -/
+
+theorem frameMeaning_other (lim : Limits) (frag : Option Partial) (fin : Bool) (o : Nat) (p : Bytes)
+    (h8 : ¬ o ≥ 8) (h0 : ¬ o = 0) :
+    frameMeaning lim frag fin o p =
+      match frag with
+      | some _ => .fail .protocol
+      | none =>
+        if overLimit p.length lim.maxMsg then .fail .capacity
+        else if o = 1 then
+          if fin then (if wellFormedB p then .deliver (.text p) none else .fail .utf8)
+          else (if viablePrefixB p then .continue_ (some ⟨true, p⟩) else .fail .utf8)
+        else
+          if fin then .deliver (.binary p) none else .continue_ (some ⟨false, p⟩) := by
+  unfold frameMeaning
+  rw [if_neg h8, if_neg h0]
+  rfl
+
+/-- the bound carried by a verdict -/
+def accBound (n : Nat) : Spec.FrameOut → Prop
+  | .deliver _ frag' => accLen frag' ≤ n
+  | .continue_ frag' => accLen frag' ≤ n
+  | _ => True
+
+theorem closeMessage_acc (n : Nat) (p : Bytes) : accBound n (closeMessage p) := by
+  unfold closeMessage
+  match p with
+  | [] => trivial
+  | [_] => trivial
+  | a :: b :: reason =>
+    dsimp only
+    cases wellFormedB reason with
+    | false => trivial
+    | true =>
+      simp only [Bool.not_true, Bool.false_eq_true, if_false]
+      cases wireCloseCode (be16 a b) <;> trivial
+
+theorem frameMeaning_acc (lim : Limits) (frag : Option Partial) (fin : Bool) (o : Nat) (p : Bytes) :
+    accBound (accLen frag + p.length) (frameMeaning lim frag fin o p) := by
+  by_cases h8 : o ≥ 8
+  · rw [frameMeaning_ctl _ _ _ _ _ h8]
+    cases fin with
+    | false => trivial
+    | true =>
+      simp only [Bool.not_true, Bool.false_eq_true, if_false]
+      by_cases hl : p.length > 125
+      · rw [if_pos hl]; trivial
+      · rw [if_neg hl]
+        by_cases h1 : o = 8
+        · rw [if_pos h1]; exact closeMessage_acc _ _
+        · rw [if_neg h1]
+          by_cases h2 : o = 9
+          · rw [if_pos h2]; exact Nat.le_add_right _ _
+          · rw [if_neg h2]; exact Nat.le_add_right _ _
+  · by_cases h0 : o = 0
+    · subst h0
+      rw [frameMeaning_cont]
+      cases frag with
+      | none => trivial
+      | some f =>
+        dsimp only
+        cases overLimit (f.acc.length + p.length) lim.maxMsg with
+        | true => trivial
+        | false =>
+          simp only [Bool.false_eq_true, if_false]
+          cases f.isText <;> cases fin <;>
+            simp only [Bool.false_eq_true, if_false, if_true]
+          · simp only [accBound, accLen, List.length_append]; exact Nat.le_refl _
+          · exact Nat.zero_le _
+          · cases viablePrefixB (f.acc ++ p)
+            · trivial
+            · simp only [if_true, accBound, accLen, List.length_append]; exact Nat.le_refl _
+          · cases wellFormedB (f.acc ++ p)
+            · trivial
+            · exact Nat.zero_le _
+    · rw [frameMeaning_other _ _ _ _ _ h8 h0]
+      cases frag with
+      | some f => trivial
+      | none =>
+        dsimp only
+        cases overLimit p.length lim.maxMsg with
+        | true => trivial
+        | false =>
+          simp only [Bool.false_eq_true, if_false]
+          by_cases h1 : o = 1
+          · rw [if_pos h1]
+            cases fin <;> simp only [Bool.false_eq_true, if_false, if_true]
+            · cases viablePrefixB p
+              · trivial
+              · simp only [if_true, accBound, accLen, Nat.zero_add]; exact Nat.le_refl _
+            · cases wellFormedB p
+              · trivial
+              · exact Nat.zero_le _
+          · rw [if_neg h1]
+            cases fin <;> simp only [Bool.false_eq_true, if_false, if_true]
+            · simp only [accBound, accLen, Nat.zero_add]; exact Nat.le_refl _
+            · exact Nat.zero_le _
+
 end WsProofs.Read
